@@ -568,6 +568,101 @@ func bucket(n int) int {
 	return b
 }
 
+// ---------------------------------------------------------------- tilings held in ONE index
+
+// All cells of one level, or a face cut into lattice rectangles plus the other
+// five faces, added as separate shapes to a single ShapeIndex: the index then
+// has fine cells along shared boundaries and cube-face boundaries, and every
+// probe must be contained in exactly one shape (semi-open model), never by any
+// shape in the open model at a vertex, and by at least one in the closed model.
+type indexTiling struct {
+	Level   int // cell level 1..3, or -1: lattice tiling
+	Lattice latticeTiling
+	Probes  []gen.P
+}
+
+func genIndexTiling(t *rapid.T) indexTiling {
+	it := indexTiling{Level: rapid.SampledFrom([]int{1, 2, 2, 3, -1, -1}).Draw(t, "level")}
+	var verts []gen.P
+	if it.Level < 0 {
+		it.Lattice = genLatticeTiling(t)
+		for _, ij := range it.Lattice.Probes {
+			verts = append(verts, gen.FromPt(gen.LatticePoint(it.Lattice.Face, it.Lattice.Level, ij[0], ij[1])))
+		}
+	}
+	for i := 0; i < 16; i++ {
+		lvl := it.Level
+		if lvl < 0 {
+			lvl = rapid.IntRange(0, 4).Draw(t, "plvl")
+		}
+		face := rapid.IntRange(0, 5).Draw(t, "face")
+		c := s2.CellFromCellID(gen.CellIDAt(t, "cell", face, lvl))
+		k := rapid.IntRange(0, 3).Draw(t, "k")
+		var p s2.Point
+		switch rapid.IntRange(0, 4).Draw(t, "kind") {
+		case 0, 1:
+			p = c.Vertex(k)
+		case 2:
+			p = gen.Fix(s2.Interpolate(rapid.Float64Range(0, 1).Draw(t, "f"), c.Vertex(k), c.Vertex((k+1)%4)), c.Vertex(k))
+			p = gen.Perturb(t, "n", p, 2)
+		case 3:
+			p = gen.Perturb(t, "vn", c.Vertex(k), 2)
+		default:
+			p = c.ID().Point()
+		}
+		verts = append(verts, gen.FromPt(p))
+	}
+	it.Probes = verts
+	return it
+}
+
+func checkIndexTiling(c indexTiling) ev.Outcome {
+	o := ev.Outcome{NonTrivial: true}
+	idx := s2.NewShapeIndex()
+	n := 0
+	if c.Level >= 0 {
+		o.Class = fmt.Sprintf("cells-level=%d", c.Level)
+		for f := 0; f < 6; f++ {
+			id := s2.CellIDFromFace(f).ChildBeginAtLevel(c.Level)
+			end := s2.CellIDFromFace(f).ChildEndAtLevel(c.Level)
+			for ; id != end; id = id.Next() {
+				idx.Add(s2.LoopFromCell(s2.CellFromCellID(id)))
+				n++
+			}
+		}
+	} else {
+		lt := c.Lattice
+		o.Class = fmt.Sprintf("lattice-level=%d", lt.Level)
+		for a := 0; a+1 < len(lt.CutI); a++ {
+			for b := 0; b+1 < len(lt.CutJ); b++ {
+				r := gen.LatticeRect{Face: lt.Face, Level: lt.Level, I0: lt.CutI[a], I1: lt.CutI[a+1], J0: lt.CutJ[b], J1: lt.CutJ[b+1]}
+				idx.Add(s2.LoopFromPoints(gen.Pts(r.Vertices())))
+				n++
+			}
+		}
+		// the rest of the sphere: the complement of the whole face, as one loop
+		size := 1 << uint(lt.Level)
+		whole := gen.LatticeRect{Face: lt.Face, Level: lt.Level, I0: 0, J0: 0, I1: size, J1: size}
+		idx.Add(whole.LoopCase().Reversed().Loop())
+		n++
+	}
+	semi := s2.NewContainsPointQuery(idx, s2.VertexModelSemiOpen)
+	closed := s2.NewContainsPointQuery(idx, s2.VertexModelClosed)
+	for i, pp := range c.Probes {
+		p := pp.Pt()
+		got := len(semi.ContainingShapes(p))
+		if got != 1 {
+			o.Err = fmt.Sprintf("probe %d %v is contained in %d of the %d tiles held in one index (%s); want exactly 1", i, p, got, n, o.Class)
+			return o
+		}
+		if !closed.Contains(p) {
+			o.Err = fmt.Sprintf("probe %d %v: closed model contains it in no tile", i, p)
+			return o
+		}
+	}
+	return o
+}
+
 func init() {
 	ev.Define("loop_paths", ev.Options{
 		Rule:  "valid-by-construction loops (regular, star-shaped about special/random centres, lattice rectangles with a vertex at every grid point, cells; 1/4 inverted; sizes 3..300 (thorough 3000) with mass on 31/32/33 and 63/64/65) × 24 probes (vertices, points on edges ±3 ulps, ±2-ulp neighbours of vertices, cell centres/corners, near and far points). Oracle: parity of exact (integer determinant + independent SoS) crossings of the segment from the construction's known interior point, documented shared-vertex rule; compared with Loop.ContainsPoint (fresh / index built), single-loop Polygon, ContainsPointQuery semi-open (lazy and pre-built index) + ShapeContains + ContainingShapes, open/closed models at vertices, ContainsOrigin. Non-trivial: the loop has > 32 vertices and its index ≥ 2 cells, or a probe is exactly a vertex.",
@@ -587,6 +682,9 @@ func init() {
 	ev.Define("tiling_lattice", ev.Options{
 		Rule:  "a cube face cut into lattice rectangles (levels 1..5, up to 5×5 tiles, every grid point on a boundary is a vertex so shared edges are bit-identical) plus the complement of the face; grid-cell centres agree with integer truth; lattice points (tile vertices, points on shared edges) are contained in exactly one tile. Non-trivial: more than one tile or a tile with > 32 vertices.",
 		Quick: 20000, Thorough: 600000}, genLatticeTiling, checkLatticeTiling)
+	ev.Define("tiling_one_index", ev.Options{
+		Rule:  "a whole-sphere tiling (all cells of level 1..3, or a face cut into lattice rectangles plus the complement of that face) added as separate shapes to ONE ShapeIndex, so index cells are fine along shared and cube-face boundaries; probes = cell vertices (incl. on face boundaries and cube corners), points on cell edges ±2 ulps, ±2-ulp neighbours of vertices, cell centres, lattice points; ContainingShapes (semi-open) returns exactly one tile and the closed model at least one. All cases non-trivial.",
+		Quick: 1600, Thorough: 40000}, genIndexTiling, checkIndexTiling)
 	ev.Define("index_contains_center", ev.Options{
 		Rule:  "loops with > 8 vertices; through the verif hook every index cell's containsCenter flag is compared with the exact crossing parity at the cell centre. Non-trivial: the index has ≥ 2 cells.",
 		Quick: 15000, Thorough: 400000}, genLoopProbe, checkIndexCenters)
